@@ -25,6 +25,8 @@ Planted input classes (round 5): block_counts (source/target counts 2**k-1, 2**k
 extra()), near_ties (geometric conflicts with distance gaps 4e-9*max .. 9e-7 voxel), dense_even (wide cone over an even dense
 sheet: 16..24 candidates per source, several rigid motions per case), exact_duplicates (coincident points), far offsets (1e5),
 and every case is a history on caller-owned arrays that are modified in place between the calls.
+Round 6: on_axis (targets at p_s + h*n_s exactly, alone and next to off-axis candidates; also sprinkled over ten other classes),
+array layouts / read-only inputs / scalar kinds varied per case, kernel additionally called on reused output buffers.
 """
 import logging
 import os
@@ -45,7 +47,8 @@ RULE = ("cases = generated point sets (20..600 points, quick tier mostly <= 200,
         "judged); planted classes: block_counts (sheet sizes 2**k-1, 2**k, 2**k+1 for k=4..9 and total 600), near_ties (conflicting "
         "candidates 4e-9*max_range..9e-7 voxel apart, both index orders), dense_even (25..30 deg cone over an even sheet, mean > 16 "
         "candidates per source, all < 25), exact_duplicates, coordinate offsets up to 1.1e5 in 15% of the cases; every case is a "
-        "history of calls on caller-owned arrays modified in place; plus one explicit candidate list per case for the assignment step; "
+        "history of calls on caller-owned arrays modified in place (layout C/F/strided/reversed/wider, 25% read-only, scalar kinds "
+        "float/np.float64/0-d/int); on_axis: a third of the sources get a target exactly at p_s + h*n_s; plus one explicit candidate list per case for the assignment step; "
         "non-trivial = at least 3 admissible pairs, at least one target contested by two sources and "
         "at least one in-range pair rejected by the cone or the forward test; distinct by digest of "
         "(n, sources, targets, parameters, class, admissible-set statistics, first point)")
@@ -70,11 +73,16 @@ ASSUMPTIONS = [
     "lists (distances 3..12, sources/targets separate name spaces); conflicting candidates closer than 1e-9 relative are treated as ties",
     "the arrays handed to measure_thickness_cpu / the kernel are owned by the driver and modified IN PLACE between the calls of a case "
     "(rigid motion, restore, label flips, point moves); every call is judged on the values the arrays hold at that moment",
+    "array layouts (C, Fortran, every-second-row view, negative stride, columns of a wider table, read-only) and scalar kinds (float, "
+    "np.float64, 0-d array, int, np.int64) carry the same float64/bool values: the expected result depends on the values only; "
+    "float32 points/normals/scalars are NOT generated (float32 arithmetic inside the code would move pairs across the 1e-9 boundary margin)",
+    "kernel output buffers: judged on fresh buffers and on buffers reused from the previous call (roles of the surfaces exchanged); in "
+    "both cases only the rows of the current call's sources are compared with the admissible set, other rows must be 0 or untouched",
 ]
 
 CLASSES = ["parallel", "tilted", "curved", "wavy", "sandwich", "flipped_normals", "arbitrary_labels", "partial_overlap_labels",
            "thin_range", "narrow_cone", "wide_cone", "dense", "small_n", "large_n", "tight_capacity",
-           "block_counts", "near_ties", "dense_even", "exact_duplicates"]
+           "block_counts", "near_ties", "dense_even", "exact_duplicates", "on_axis"]
 BLOCK_VALUES = [v for k in range(4, 10) for v in (2 ** k - 1, 2 ** k, 2 ** k + 1)]
 MON_CPU = ["pairs_admissible", "one_to_one", "thickness_value", "greedy_maximal", "greedy_reference"]
 MON_REL = ["rigid_motion", "voxel_scaling", "direction_swap"]
@@ -87,11 +95,11 @@ CAP = 25
 def plan(tier):
     env = {"NUMBA_BOUNDSCHECK": "1", "OMP_WAIT_POLICY": "passive"}
     if tier == "quick":
-        return dict(n_cases=266, shards=3, classes=CLASSES, timeout_s=900, env=env,
+        return dict(n_cases=280, shards=3, classes=CLASSES, timeout_s=900, env=env,
                     min_evals={"pairs_admissible": 1000, "one_to_one": 1000, "thickness_value": 1000, "greedy_maximal": 1000,
                                "greedy_reference": 900, "rigid_motion": 250, "voxel_scaling": 200, "direction_swap": 200,
                                "kernel_candidates": 600, "kernel_boundscheck": 300, "kernel_threads": 300, "assignment_greedy": 250})
-    return dict(n_cases=1824, shards=16, classes=CLASSES, timeout_s=3000, env=env,
+    return dict(n_cases=1840, shards=16, classes=CLASSES, timeout_s=3000, env=env,
                 min_evals={"pairs_admissible": 7000, "one_to_one": 7000, "thickness_value": 7000, "greedy_maximal": 7000,
                            "greedy_reference": 6500, "rigid_motion": 1800, "voxel_scaling": 1400, "direction_swap": 1400,
                            "kernel_candidates": 3500, "kernel_boundscheck": 1700, "kernel_threads": 1700, "assignment_greedy": 1800})
@@ -162,6 +170,10 @@ def _post_cpu(ctx, A, old, result):
                        ("inrange_pairs_behind_source_seen", "inrange_behind"), ("pairs_in_backward_cone_seen", "behind_in_backward_cone"),
                        ("pairs_in_cone_beyond_range_seen", "out_of_range_in_cone")):
         ctx.extra[k_ex] = ctx.extra.get(k_ex, 0) + st[k_st]
+    n_ax = int((T.A & (T.ANG < 1e-6)).sum())
+    if n_ax:
+        ctx.extra["cpu_admissible_pairs_exactly_on_the_source_normal_judged"] = ctx.extra.get("cpu_admissible_pairs_exactly_on_the_source_normal_judged", 0) + n_ax
+        ctx.extra["cpu_calls_with_on_axis_pairs"] = ctx.extra.get("cpu_calls_with_on_axis_pairs", 0) + 1
     cc = T.cand_counts()
     mean_c = float(cc.mean()) if cc.size else 0.0
     if mean_c > 16.0:
@@ -240,6 +252,9 @@ def _post_kernel(ctx, A, old, result):
         if cnt in BLOCK_VALUES:
             kk = "kernel_calls_with_%s_=_%d" % (role, cnt)
             ctx.extra[kk] = ctx.extra.get(kk, 0) + 1
+    n_ax = int((T.A & (T.ANG < 1e-6)).sum())
+    if n_ax:
+        ctx.extra["kernel_admissible_pairs_exactly_on_the_source_normal_judged"] = ctx.extra.get("kernel_admissible_pairs_exactly_on_the_source_normal_judged", 0) + n_ax
     if T.n == 600:
         ctx.extra["kernel_calls_with_600_points"] = ctx.extra.get("kernel_calls_with_600_points", 0) + 1
     ctx.extra["kernel_candidates_seen"] = ctx.extra.get("kernel_candidates_seen", 0) + int(T.A.sum())
@@ -410,6 +425,12 @@ def _build(rng, tier, cls, ov=None):
     fac = float(rng.uniform(0.92, 1.12)) if cls == "thin_range" else float(rng.uniform(1.2, 2.2))
     max_vox = d * fac
     max_nm = max_vox * voxel
+    int_scalars = bool(cls not in ("narrow_cone", "wide_cone") and rng.random() < 0.12)
+    if int_scalars:                      # integral voxel size / max thickness / max angle, later handed over as Python or numpy integers
+        voxel = float(rng.choice([1, 2, 3, 10]))
+        ang = float(rng.choice([2, 3, 5, 10, 20, 30]))
+        max_nm = float(np.ceil(max_vox * voxel))
+        max_vox = max_nm / voxel
     lam = float(rng.uniform(6.0, 10.0)) if cls == "dense" else float(rng.uniform(0.7, 5.0))
     spacing = d * np.tan(np.radians(ang)) * np.sqrt(np.pi / lam)
     nA = int(round(n * rng.uniform(0.35, 0.65)))
@@ -489,7 +510,7 @@ def _build(rng, tier, cls, ov=None):
             "voxel": voxel, "max_nm": float(max_nm), "ang": float(ang), "direction": direction,
             "meta": {"n": n, "shape": shape, "labels": lab, "separation_vox": round(d, 4), "spacing_vox": round(float(spacing), 5),
                      "normal_noise_deg": round(sigma, 4), "flipped_normals": flipped, "third_sheet": bool((side < 0).any()), "layout": mode,
-                     "far_offset": far}}
+                     "far_offset": far, "integral_scalars": int_scalars}}
 
 
 def _build_dense_even(rng, tier):
@@ -618,6 +639,35 @@ def _plant_near_ties(rng, c):
     c["meta"]["near_tie_gaps"] = [float("%.3g" % p["gap"]) for p in plants]
 
 
+def _plant_on_axis(rng, c, frac):
+    """Targets EXACTLY on a source's normal ray: p_t = p_s + h * n_s evaluated in float64 in the final (generically rotated) frame, as
+    a ray cast or a normal-offset surface produces them - 0 degrees off the cone axis, the most admissible candidate there is.  Some
+    stand alone, the others compete with the off-axis candidates already present or with a second planted off-axis target."""
+    P, N = c["P"], c["N"]
+    srcm, tgtm = _roles(c)
+    only_s = np.flatnonzero(srcm & ~tgtm)
+    free_t = list(np.flatnonzero(tgtm & ~srcm))
+    max_vox = c["max_nm"] / c["voxel"]
+    k = int(min(max(2, round(frac * len(only_s))), len(only_s), max(0, len(free_t) // 2), 40))
+    planted = 0
+    for s0 in rng.permutation(only_s)[:k].tolist():
+        if len(free_t) < 2:
+            break
+        dd = np.linalg.norm(P[free_t] - P[s0], axis=1)
+        j = int(np.argmin(dd))
+        t0 = int(free_t.pop(j))
+        h = float(rng.uniform(0.35, 0.92)) * max_vox
+        P[t0] = P[s0] + h * N[s0]
+        planted += 1
+        if rng.random() < 0.4:
+            dd = np.linalg.norm(P[free_t] - P[s0], axis=1)
+            t1 = int(free_t.pop(int(np.argmin(dd))))
+            a = np.radians(float(rng.uniform(0.2, 0.8)) * c["ang"])
+            h1 = h * float(rng.uniform(0.8, 1.25))
+            P[t1] = P[s0] + min(h1, 0.95 * max_vox) * (np.cos(a) * N[s0] + np.sin(a) * _perp(rng, N[s0]))
+    c["meta"]["on_axis_targets_planted"] = planted
+
+
 def _plant_duplicates(rng, c):
     """Exact duplicates: coincident targets, coincident sources (same normal), a source sitting exactly on a target."""
     P, N = c["P"], c["N"]
@@ -683,6 +733,9 @@ def _make(ctx, i, cls, ov=None):
             _plant_near_ties(rng_b, c)
         if cls == "exact_duplicates":
             _plant_duplicates(rng_b, c)
+        if cls == "on_axis" or (cls in ("tilted", "curved", "wavy", "arbitrary_labels", "narrow_cone", "wide_cone", "small_n", "thin_range",
+                                         "tight_capacity", "sandwich") and rng_b.random() < 0.35):
+            _plant_on_axis(rng_b, c, 0.33 if cls == "on_axis" else 0.15)
         if cls == "block_counts":
             _reorder_best_last(rng_b, c)
         src, tgt = _roles(c)
@@ -718,6 +771,9 @@ def _make(ctx, i, cls, ov=None):
             rich = rich and len(c.get("near_tie_plants", [])) >= 2
         if cls == "exact_duplicates":
             rich = rich and T.tie_gap == 0.0
+        st["on_axis_admissible"] = int((T.A & (T.ANG < 1e-6)).sum())
+        if cls == "on_axis":
+            rich = rich and st["on_axis_admissible"] >= 4
         if not rich and attempt < 30:
             regen["poor"] += 1
             continue
@@ -730,10 +786,16 @@ def _make(ctx, i, cls, ov=None):
     case["capacity"] = "tight" if cls == "tight_capacity" or r2.random() < 0.15 else "25"
     case["perm_targets"] = bool(r2.random() < 0.35)
     case["f32_out"] = bool(r2.random() < 0.25)
+    case["layout"] = str(r2.choice(["C", "C", "F", "strided", "reversed", "wider"]))
+    case["readonly"] = bool(r2.random() < 0.25)
+    case["scalar_kind"] = str(r2.choice(["py", "py", "np64", "0d"])) if not case["meta"].get("integral_scalars") else str(r2.choice(["int", "npint"]))
+    if case["f32_out"] and case["layout"] != "C":
+        case["f32_out"] = False          # keeps the number of numba specialisations of the kernel small (layout x output dtype)
     case["extra_motions"] = (8 if ctx.tier == "quick" else 5) if cls == "dense_even" else 0
     case["summary"] = dict(case["meta"], cls=cls, voxel=case["voxel"], max_thickness=round(case["max_nm"], 6), max_angle=round(case["ang"], 6),
                            direction=case["direction"], stats=case["stats"], regenerated=regen, p0=[round(float(x), 6) for x in case["P"][0]],
-                           kernel=[case["capacity"], case["perm_targets"], case["f32_out"]])
+                           kernel=[case["capacity"], case["perm_targets"], case["f32_out"]],
+                           arrays=[case["layout"], "readonly" if case["readonly"] else "writable", case["scalar_kind"]])
     return case
 
 
@@ -749,15 +811,62 @@ def nontrivial(case):
 
 
 # ---- driver --------------------------------------------------------------------------------------
+def _as_layout(a, kind):
+    """An array with the same values and dtype in another memory layout (all writable views of a private buffer)."""
+    if kind == "F" and a.ndim == 2:
+        return np.asfortranarray(a)
+    if kind == "strided":                                  # every second row of a longer buffer
+        big = np.zeros((2 * len(a),) + a.shape[1:], dtype=a.dtype)
+        v = big[::2]
+        v[...] = a
+        return v
+    if kind == "reversed":                                 # negative stride along the first axis
+        base = a[::-1].copy()
+        return base[::-1]
+    if kind == "wider" and a.ndim == 2:                    # three columns of a wider table (e.g. x,y,z out of a point table)
+        big = np.full((len(a), a.shape[1] + 3), 7.5, dtype=a.dtype)
+        v = big[:, 2:2 + a.shape[1]]
+        v[...] = a
+        return v
+    if kind == "wider":
+        return _as_layout(a, "strided")
+    return a.copy()
+
+
+def _scalar(x, kind):
+    if kind == "np64":
+        return np.float64(x)
+    if kind == "0d":
+        return np.array(x, dtype=np.float64)
+    if kind == "int" and float(x) == int(x):
+        return int(x)
+    if kind == "npint" and float(x) == int(x):
+        return np.int64(int(x))
+    return float(x)
+
+
 def _mt_call(ctx, label, c, P, N, m1, m2, voxel, max_nm, direction, num_threads=None):
     """The arrays are handed over as they are (caller-owned; the driver modifies them in place between calls)."""
     ctx.c20_last = None
     ctx.c20_driver_call = True
+    kind = c.get("scalar_kind", "py")
+    ro = bool(c.get("readonly")) and "in place" not in label
+    arrs = (P, N, m1, m2)
     try:
-        ok, r = ctx.call(label, ctx.mt.measure_thickness_cpu, P, N, m1, m2, voxel,
-                         max_thickness_nm=max_nm, max_angle_degrees=c["ang"], direction=direction, num_threads=num_threads, logger=ctx.log)
+        if ro:
+            for a in arrs:
+                a.flags.writeable = False
+        ok, r = ctx.call(label, ctx.mt.measure_thickness_cpu, P, N, m1, m2, _scalar(voxel, kind),
+                         max_thickness_nm=_scalar(max_nm, kind), max_angle_degrees=_scalar(c["ang"], kind), direction=direction,
+                         num_threads=num_threads, logger=ctx.log)
     finally:
         ctx.c20_driver_call = False
+        if ro:
+            for a in arrs:
+                a.flags.writeable = True
+    for nm_, v_ in (("layout=" + c.get("layout", "C"), 1), ("readonly" if ro else "writable", 1), ("scalars=" + kind, 1)):
+        kk = "cpu_calls_with_" + nm_
+        ctx.extra[kk] = ctx.extra.get(kk, 0) + v_
     info = ctx.c20_last
     if ok:
         try:
@@ -793,7 +902,8 @@ def run_case(ctx, c):
         return
     rng = ctx.rng(c["i"], 1)
     # caller-owned arrays of this history: modified IN PLACE between the calls, never re-allocated
-    P, N, m1, m2 = c["P"].copy(), c["N"].copy(), c["m1"].copy(), c["m2"].copy()
+    lay = c.get("layout", "C")
+    P, N, m1, m2 = _as_layout(c["P"], lay), _as_layout(c["N"], lay), _as_layout(c["m1"], lay), _as_layout(c["m2"], lay)
     d = c["direction"]
     ok0, r0, i0 = _mt_call(ctx, "measure_thickness_cpu", c, P, N, m1, m2, c["voxel"], c["max_nm"], d,
                            num_threads=ctx.nt_default if c["i"] % 4 == 0 else None)
@@ -951,7 +1061,20 @@ def _kernel_part(ctx, c, rng, P, N, m1, m2):
             nb.set_num_threads(ctx.nt_default)
 
     o1 = fresh()
-    ok1 = run(1, o1)
+    ro = bool(c.get("readonly")) and c.get("layout", "C") == "C"      # read-only inputs: one more numba specialisation only
+    ins = (P, N, src, tgt, ti)
+    try:
+        if ro:
+            for a in ins:
+                a.flags.writeable = False
+            ctx.extra["kernel_calls_with_readonly_inputs"] = ctx.extra.get("kernel_calls_with_readonly_inputs", 0) + 1
+        ok1 = run(1, o1)
+    finally:
+        if ro:
+            for a in ins:
+                a.flags.writeable = True
+    kk = "kernel_calls_with_layout=" + c.get("layout", "C")
+    ctx.extra[kk] = ctx.extra.get(kk, 0) + 1
     if ctx.bc_alive:
         ctx.check("kernel_boundscheck", ok1, {"what": "kernel raised under NUMBA_BOUNDSCHECK=1 with 1 thread", "n": n, "capacity": cap})
     if ctx.nt < 2:
@@ -970,6 +1093,16 @@ def _kernel_part(ctx, c, rng, P, N, m1, m2):
                  "n_different": int(len(neq))}
             break
     ctx.check("kernel_threads", w is None, w)
+    # -- buffers REUSED without re-initialising, roles of the two surfaces exchanged: the rows of the new sources hold the counts and
+    #    candidates of the previous call; only the candidates of the current call count (judged by the call monitor)
+    ti2 = np.flatnonzero(src)
+    nb.set_num_threads(ctx.nt if c["i"] % 2 else 1)
+    try:
+        ctx.call("find_matches_parallel(reused buffers, roles exchanged)", ctx.mt.find_matches_parallel, P, N, tgt, src, ti2, max_vox, cosv,
+                 oN[0], oN[1], oN[2])
+    finally:
+        nb.set_num_threads(ctx.nt_default)
+    ctx.extra["kernel_calls_on_reused_buffers"] = ctx.extra.get("kernel_calls_on_reused_buffers", 0) + 1
     ctx.extra["kernel_thread_pairs_compared"] = ctx.extra.get("kernel_thread_pairs_compared", 0) + 1
     ctx.extra["kernel_bytes_compared"] = ctx.extra.get("kernel_bytes_compared", 0) + sum(int(a.nbytes) for a in o1)
 
